@@ -842,18 +842,32 @@ Qed.
 (* Part C: completeness                                                                         *)
 (* ------------------------------------------------------------------------------------------- *)
 (* "the run answers, and if it answers without a flag then P holds of the outcome and the memo" *)
-Definition postP (P : outcome -> memo -> Prop) (r : res_t) : Prop :=
-  exists o m fl, r = Some (o, m, fl) /\ (fl_clean fl = true -> P o m).
+(* ... and whatever flags it carries satisfy Fl *)
+Definition postP (Fl : flags -> Prop) (P : outcome -> memo -> Prop) (r : res_t) : Prop :=
+  exists o m fl, r = Some (o, m, fl) /\ Fl fl /\ (fl_clean fl = true -> P o m).
 
-Lemma postP_ret (P : outcome -> memo -> Prop) o m fl : (fl_clean fl = true -> P o m) -> postP P (Some (o, m, fl)).
-Proof. intros H. exists o, m, fl. split; [reflexivity|exact H]. Qed.
+Lemma postP_ret (Fl : flags -> Prop) (P : outcome -> memo -> Prop) o m fl :
+  Fl fl -> (fl_clean fl = true -> P o m) -> postP Fl P (Some (o, m, fl)).
+Proof. intros HF H. exists o, m, fl. split; [reflexivity|]. split; [exact HF|exact H]. Qed.
 
-Lemma postP_bind (P Q : outcome -> memo -> Prop) r k :
-  postP P r -> (forall o m, P o m -> postP Q (k o m)) -> postP Q (bindx r k).
+Lemma postP_bind (Fl : flags -> Prop) (P Q : outcome -> memo -> Prop) r k :
+  postP Fl P r -> (forall o m, P o m -> postP Fl Q (k o m)) -> postP Fl Q (bindx r k).
 Proof.
-  intros (o & m & fl & -> & H) Hk. cbn [bindx]. destruct (fl_clean fl) eqn:E; [apply Hk; apply H; reflexivity|].
-  exists Div, m, fl. split; [reflexivity|]. rewrite E. discriminate.
+  intros (o & m & fl & -> & HF & H) Hk. cbn [bindx]. destruct (fl_clean fl) eqn:E; [apply Hk; apply H; reflexivity|].
+  exists Div, m, fl. split; [reflexivity|]. split; [exact HF|]. rewrite E. discriminate.
 Qed.
+
+(* location monotonicity of the Forward bodies (do_actions=False pass): a match never ends before its start.  Needed only
+   to exclude `seed_returned`; the framework has upper bounds on locations (Proofs/LocBound.v), not this lower bound. *)
+Definition loc_mono (G : env) (s : str) : Prop :=
+  forall f id body loc l r, nth_error G id = Some body ->
+    parse (step G) f (mkargs body s loc false false) = Some (Ok l r) -> loc <= l.
+
+(* what is known of the flags of a stopping run on a call that the plain parser answers *)
+Definition fl_ok (G : env) (s : str) (fl : flags) : Prop :=
+  key_error fl = false /\ (loc_mono G s -> seed_returned fl = false).
+
+Ltac fl_triv := split; [reflexivity|intros _; reflexivity].
 
 (* The left-recursion algorithm evaluates a Forward's body with do_actions=False BEFORE (and whether or not) it evaluates
    it with do_actions=True; the plain Forward.parseImpl called with do_actions=True never does.  So termination of the plain
@@ -877,7 +891,8 @@ Notation pparse := (parse (step G)).
 Notation Cs := (Cs tbl s).
 Notation memo_ok := (memo_ok G tbl s).
 Notation Pent := (Pent G tbl s).
-Notation post o := (postP (fun o' m' => o' = o /\ memo_ok m')).
+Notation Fl := (fl_ok G s).
+Notation post o := (postP Fl (fun o' m' => o' = o /\ memo_ok m')).
 
 Section Rec.
 Variable recx : memo -> args -> res_t.
@@ -888,7 +903,7 @@ Hypothesis Hkx : forall loc0 fid0 m a o m', recx m a = Some (o, m', fl0) -> keep
 Lemma runm_cmp p : calls Cs p -> forall m o, memo_ok m -> run (pparse f) p = Some o -> post o (runm_x recx m p).
 Proof.
   induction p as [o0|a k IH]; intros HC m o Hm H; cbn [run runm_x] in *.
-  - injection H as <-. apply postP_ret. intros _. split; [reflexivity|exact Hm].
+  - injection H as <-. apply postP_ret; [fl_triv|]. intros _. split; [reflexivity|exact Hm].
   - inversion HC as [|a0 k0 Ha Hk]; subst.
     destruct (pparse f a) as [o1|] eqn:E; [|discriminate].
     eapply postP_bind; [exact (Hrec _ _ _ Ha Hm E)|].
@@ -897,16 +912,16 @@ Qed.
 
 Lemma super_cmp a body loc d m ob : fwb body = true -> memo_ok m ->
   pparse f (mkargs body s loc d false) = Some ob ->
-  postP (fun o' m' => o' = fwd_ans (nid a) loc ob /\ memo_ok m' /\ forall l0 f0, keep l0 f0 m -> keep l0 f0 m')
+  postP Fl (fun o' m' => o' = fwd_ans (nid a) loc ob /\ memo_ok m' /\ forall l0 f0, keep l0 f0 m -> keep l0 f0 m')
         (super_impl_t recx a body s loc d m).
 Proof.
   intros Hb Hm Hp.
-  destruct (Hrec m (mkargs body s loc d false) ob (conj eq_refl Hb) Hm Hp) as (o' & m' & fl & E & H).
+  destruct (Hrec m (mkargs body s loc d false) ob (conj eq_refl Hb) Hm Hp) as (o' & m' & fl & E & HF & H).
   unfold super_impl_t. rewrite E.
   assert (Hc : fl_clean fl = true -> o' = ob /\ memo_ok m' /\ forall l0 f0, keep l0 f0 m -> keep l0 f0 m').
   { intros Hc. destruct (H Hc) as [-> Hm']. split; [reflexivity|]. split; [exact Hm'|].
     intros l0 f0 Hk0. apply fl_clean_0 in Hc. subst fl. eapply Hkx; eassumption. }
-  destruct o' as [l r|x|]; apply postP_ret; intros Hcl; destruct (Hc Hcl) as (<- & Hm' & Hk');
+  destruct o' as [l r|x|]; (apply postP_ret; [exact HF|]); intros Hcl; destruct (Hc Hcl) as (<- & Hm' & Hk');
     (split; [|split; [exact Hm'|exact Hk']]); reflexivity.
 Qed.
 
@@ -919,7 +934,7 @@ Hypothesis Hnth : nth_error G id = Some body.
 
 Let Hbody : fwb body = true := body_fw G tbl HG id body Hnth.
 
-Notation postf loc obd := (postP (fun o' m' => o' = fwd_ans (nid a) loc obd /\ memo_ok m')).
+Notation postf loc obd := (postP Fl (fun o' m' => o' = fwd_ans (nid a) loc obd /\ memo_ok m')).
 
 (* a later iteration: the previous peek result is the plain parser's; the body answers the same; the loop exits *)
 Lemma loop2_cmp loc d n l0 r0 obd m :
@@ -944,12 +959,12 @@ Proof.
       apply mall_del. apply mall_del. apply mall_set; [exact Hm2|].
       eapply (Pent_ok G tbl s a id body Htbl Hnth). exact Hp0. }
     destruct (is_seed (loc, nid a, true) (pl, pr)) eqn:Es;
-      [destruct pr; apply postP_ret; intros Hc; discriminate Hc|].
+      [destruct pr; (apply postP_ret; [fl_triv|]); intros Hc; discriminate Hc|].
     destruct (mval_same (pl, pr) (Z.of_nat l0, MOk r0)) eqn:Em;
-      [|destruct pr; apply postP_ret; intros Hc; discriminate Hc].
+      [|destruct pr; (apply postP_ret; [fl_triv|]); intros Hc; discriminate Hc].
     destruct (Hcl eq_refl eq_refl) as (r & -> & Ho & Hm4).
-    apply postP_ret. intros _. split; [exact Ho|exact Hm4].
-  - apply postP_ret. intros _. rewrite Nat2Z.id. rewrite (pdet G _ _ _ _ _ Hpd Hp0). split; [reflexivity|].
+    apply postP_ret; [fl_triv|]. intros _. split; [exact Ho|exact Hm4].
+  - apply postP_ret; [fl_triv|]. intros _. rewrite Nat2Z.id. rewrite (pdet G _ _ _ _ _ Hpd Hp0). split; [reflexivity|].
     apply mall_del. exact Hm1.
 Qed.
 
@@ -969,26 +984,29 @@ Proof.
                    else Some (x1, m1, fl0))).
   { intros x1 ->. destruct d.
     - unfold pef_x.
-      destruct (super_cmp a body loc true m1 obd Hbody Hm1 Hpd) as (og & mg & fg & Eg & Hg). rewrite Eg.
-      apply postP_ret. intros Hc. split; [|exact Hm1].
+      destruct (super_cmp a body loc true m1 obd Hbody Hm1 Hpd) as (og & mg & fg & Eg & _ & Hg). rewrite Eg.
+      apply postP_ret; [fl_triv|]. intros Hc. split; [|exact Hm1].
       destruct (fl_clean fg && same_fail (fwd_ans (nid a) loc obF) og) eqn:Ec; [|discriminate Hc].
       apply andb_prop in Ec as [Ec1 Ec2]. apply same_fail_eq in Ec2. rewrite Ec2. exact (proj1 (Hg Ec1)).
-    - apply postP_ret. intros _. split; [|exact Hm1]. rewrite (pdet G _ _ _ _ _ Hpd HpF). reflexivity. }
+    - apply postP_ret; [fl_triv|]. intros _. split; [|exact Hm1]. rewrite (pdet G _ _ _ _ _ Hpd HpF). reflexivity. }
   destruct obF as [l r|x|]; cbn [fwd_ans].
-  - destruct (Z.of_nat l <=? Z.of_nat loc - 1)%Z.
+  - destruct (Z.of_nat l <=? Z.of_nat loc - 1)%Z eqn:El.
     + unfold lr_exit. destruct d.
       * destruct (has_get_some _ _ (proj1 (Hk1 _ _ (Hkp eq_refl)))) as [[pl pr] Eg]. rewrite Eg.
         destruct (is_seed (loc, nid a, true) (pl, pr)) eqn:Es;
-          destruct pr as [r1|x1]; apply postP_ret; intros Hc; exfalso; cbn in Hc; discriminate Hc.
-      * apply postP_ret. intros Hc. exfalso. rewrite is_seed_seed in Hc. discriminate Hc.
+          destruct pr as [r1|x1]; (apply postP_ret; [fl_triv|]); intros Hc; exfalso; cbn in Hc; discriminate Hc.
+      * apply postP_ret.
+        -- split; [reflexivity|]. intros Hlm. exfalso. apply Z.leb_le in El.
+           pose proof (Hlm f id body loc l r Hnth HpF). lia.
+        -- intros Hc. exfalso. rewrite is_seed_seed in Hc. discriminate Hc.
     + subst fu. destruct d.
       * eapply postP_bind; [exact (super_cmp a body loc true m1 _ Hbody Hm1 Hpd)|].
         intros o2 m2 (-> & Hm2 & Hk2). destruct obd as [l2 r2|x2|]; cbn [fwd_ans].
         -- apply (loop2_cmp loc true n l r (Ok l2 r2)); [exact HpF|exact Hpd| |intros _; apply keep_set2].
            apply mall_set; [apply mall_set; [exact Hm2|]|]; eapply (Pent_ok G tbl s a id body Htbl Hnth); eassumption.
-        -- destruct (is_pe (xk (enh_rewrite (fid_attrs (nid a)) true loc x2))); apply postP_ret; intros Hc;
+        -- destruct (is_pe (xk (enh_rewrite (fid_attrs (nid a)) true loc x2))); (apply postP_ret; [fl_triv|]); intros Hc;
              [discriminate Hc|split; [reflexivity|exact Hm2]].
-        -- apply postP_ret. intros _. split; [reflexivity|exact Hm2].
+        -- apply postP_ret; [fl_triv|]. intros _. split; [reflexivity|exact Hm2].
       * apply loop2_cmp; [exact HpF|exact Hpd| |intros Hd; discriminate Hd].
         apply mall_set; [exact Hm1|]. eapply (Pent_ok G tbl s a id body Htbl Hnth). exact HpF.
   - destruct (is_pe (xk (enh_rewrite (fid_attrs (nid a)) true loc x))); apply Hfail; reflexivity.
@@ -1002,10 +1020,10 @@ Lemma forward_cmp loc d m obd : memo_ok m ->
 Proof.
   intros Hm Hpd Hpk. unfold lr_forward_x.
   destruct (memo_get m (loc, nid a, d)) as [[[pl [r|x]] m1]|] eqn:Eg.
-  - apply postP_ret. intros _. destruct (mall_get Pent _ _ _ _ Eg Hm) as [Hp Hm1].
+  - apply postP_ret; [fl_triv|]. intros _. destruct (mall_get Pent _ _ _ _ Eg Hm) as [Hp Hm1].
     destruct (entry_ok_here G tbl s a id body Htbl Hnth _ _ _ (Hp eq_refl)) as (fa & oba & Hpa & n & -> & Ha).
     rewrite Nat2Z.id. rewrite (pdet G _ _ _ _ _ Hpd Hpa). split; [symmetry; exact Ha|exact Hm1].
-  - destruct (is_seed (loc, nid a, d) (pl, MExc x)) eqn:Es; apply postP_ret; intros Hc; [discriminate Hc|].
+  - destruct (is_seed (loc, nid a, d) (pl, MExc x)) eqn:Es; (apply postP_ret; [fl_triv|]); intros Hc; [discriminate Hc|].
     destruct (mall_get Pent _ _ _ _ Eg Hm) as [Hp Hm1].
     destruct (entry_ok_here G tbl s a id body Htbl Hnth _ _ _ (Hp Es)) as (fa & oba & Hpa & Ha).
     rewrite (pdet G _ _ _ _ _ Hpd Hpa). split; [symmetry; exact Ha|exact Hm1].
@@ -1100,13 +1118,13 @@ Proof.
     destruct ob as [l' r|x|]; cbn [fwd_ans].
     + apply Hrun; [apply (K_step_k tbl s)|exact Hm2|exact Hp].
     + rewrite <- enh_fid. apply Hrun; [apply (K_step_k tbl s)|exact Hm2|exact Hp].
-    + cbn [run] in Hp. injection Hp as <-. apply postP_ret. intros _. split; [reflexivity|exact Hm2].
+    + cbn [run] in Hp. injection Hp as <-. apply postP_ret; [fl_triv|]. intros _. split; [reflexivity|exact Hm2].
   - rewrite Hpl in Hp. injection Hp as <-.
     eapply postP_bind; [exact (Hrun pre HCpre m _ Hm Epre)|].
-    intros opre m1 [-> Hm1]. apply postP_ret. intros _. split; [reflexivity|exact Hm1].
+    intros opre m1 [-> Hm1]. apply postP_ret; [fl_triv|]. intros _. split; [reflexivity|exact Hm1].
   - rewrite Hpl in Hp. injection Hp as <-.
     eapply postP_bind; [exact (Hrun pre HCpre m _ Hm Epre)|].
-    intros opre m1 [-> Hm1]. apply postP_ret. intros _. split; [reflexivity|exact Hm1].
+    intros opre m1 [-> Hm1]. apply postP_ret; [fl_triv|]. intros _. split; [reflexivity|exact Hm1].
   - rewrite Hpl in Hp. discriminate.
 Qed.
 End Cmp.
@@ -1120,12 +1138,14 @@ Theorem lr_complete_x : forall (G : env) (tbl : nat -> option nat) (s : str) f f
   memo_ok G tbl s m -> peek_total G s ->
   parse (step G) f a = Some o -> f <= fuel ->
   exists o' m' fl, parse_lr_x G fuel m a = Some (o', m', fl) /\
+    key_error fl = false /\ (loc_mono G s -> seed_returned fl = false) /\
     (fl_clean fl = true ->
        o' = o /\ memo_ok G tbl s m' /\ parse_lr_t G fuel m a = Some (o, m', fl0) /\ parse_lr G fuel m a = Some (o, m')).
 Proof.
   intros G tbl s f fuel m a o HG Hw Hs Hm Hpt Hp Hle.
-  destruct (parse_lr_cmp G tbl s HG Hpt f fuel m a o Hle (conj Hs Hw) Hm Hp) as (o' & m' & fl & Hx & H).
-  exists o', m', fl. split; [exact Hx|]. intros Hc. destruct (H Hc) as [-> Hm']. apply fl_clean_0 in Hc. subst fl.
+  destruct (parse_lr_cmp G tbl s HG Hpt f fuel m a o Hle (conj Hs Hw) Hm Hp) as (o' & m' & fl & Hx & [HF1 HF2] & H).
+  exists o', m', fl. split; [exact Hx|]. split; [exact HF1|]. split; [exact HF2|].
+  intros Hc. destruct (H Hc) as [-> Hm']. apply fl_clean_0 in Hc. subst fl.
   pose proof (x_clean_t G _ _ _ _ _ Hx) as Ht.
   split; [reflexivity|]. split; [exact Hm'|]. split; [exact Ht|]. eapply parse_lr_t_erase. exact Ht.
 Qed.
@@ -1140,13 +1160,15 @@ Theorem lr_complete : forall (G : env) (tbl : nat -> option nat) (s : str) f fue
   (exists m', parse_lr_t G fuel m a = Some (o, m', fl0) /\ parse_lr G fuel m a = Some (o, m') /\ memo_ok G tbl s m')
   \/
   (exists o' m' fl, parse_lr_x G fuel m a = Some (o', m', fl) /\ fl_clean fl = false /\
+     key_error fl = false /\ (loc_mono G s -> seed_returned fl = false) /\
      forall fuel' o'' m'', parse_lr_t G fuel' m a <> Some (o'', m'', fl0)).
 Proof.
   intros G tbl s f fuel m a o HG Hw Hs Hm Hpt Hp Hle.
-  destruct (lr_complete_x G tbl s f fuel m a o HG Hw Hs Hm Hpt Hp Hle) as (o' & m' & fl & Hx & H).
+  destruct (lr_complete_x G tbl s f fuel m a o HG Hw Hs Hm Hpt Hp Hle) as (o' & m' & fl & Hx & HF1 & HF2 & H).
   destruct (fl_clean fl) eqn:Ec.
   - left. destruct (H eq_refl) as (-> & Hm' & Ht & Hl). exists m'. repeat split; assumption.
-  - right. exists o', m', fl. split; [exact Hx|]. split; [exact Ec|]. eapply x_flag_genuine; eassumption.
+  - right. exists o', m', fl. split; [exact Hx|]. split; [exact Ec|]. split; [exact HF1|]. split; [exact HF2|].
+    eapply x_flag_genuine; eassumption.
 Qed.
 
 (* whenever SOME fuel gives a flag-free left-recursion run, the plain parser's own fuel is enough for it *)
@@ -1158,7 +1180,7 @@ Corollary lr_complete_clean : forall (G : env) (tbl : nat -> option nat) (s : st
   exists m', parse_lr_t G fuel m a = Some (o, m', fl0) /\ parse_lr G fuel m a = Some (o, m') /\ memo_ok G tbl s m'.
 Proof.
   intros G tbl s f fuel fuel0 m a o o0 m0 HG Hw Hs Hm Hpt Hp Hle H0.
-  destruct (lr_complete G tbl s f fuel m a o HG Hw Hs Hm Hpt Hp Hle) as [H|(o' & m' & fl & _ & _ & H)]; [exact H|].
+  destruct (lr_complete G tbl s f fuel m a o HG Hw Hs Hm Hpt Hp Hle) as [H|(o' & m' & fl & _ & _ & _ & _ & H)]; [exact H|].
   exfalso. exact (H _ _ _ H0).
 Qed.
 
@@ -1210,7 +1232,7 @@ Proof.
   - injection Hp as <-. exists (Some r0), m, fl0. split; [reflexivity|]. intros _. repeat split. exact Hm.
   - inversion HC as [|a0 k0 Ha Hk]; subst.
     destruct (parse (step G) f a) as [o1|] eqn:E; [|discriminate].
-    destruct (parse_lr_cmp G tbl s HG Hpt f fuel m a o1 Hle Ha Hm E) as (o' & m1 & fl1 & Hx & H1).
+    destruct (parse_lr_cmp G tbl s HG Hpt f fuel m a o1 Hle Ha Hm E) as (o' & m1 & fl1 & Hx & _ & H1).
     rewrite Hx. destruct (fl_clean fl1) eqn:Ec.
     + destruct (H1 eq_refl) as [-> Hm1]. apply fl_clean_0 in Ec. subst fl1.
       destruct (IH o1 (Hk o1) m1 Hm1 Hp) as (r' & m' & fl & Hd & H2).
